@@ -17,17 +17,17 @@ theorem WF.suf {st st' : PState} (h : WF st) (hs : Suf st' st) : WF st' :=
 
 theorem WF.adv {st : PState} (h : WF st) : WF (adv st) := h.suf (Suf.adv st)
 
-theorem WF.shape {st : PState} (h : WF st) (hk : peekTok st = some .PackagePath) :
+theorem WF.shape {st : PState} (h : WF st) (hk : nextTok st = some .PackagePath) :
     pathShape (tokAt st).text := by
-  obtain ⟨h1, h2⟩ := toks_of_peekTok hk
+  obtain ⟨h1, h2⟩ := toks_of_nextTok hk
   exact h _ (by rw [h1]; simp) (tok?_eq_some.mp h2)
 
 /-! ### extern names, export options -/
 
 theorem parseExternName_eq_ok {st st' : PState} {n : ExternName} :
     parseExternName st = .ok (n, st') ↔
-      (peekTok st = some .Ident ∧ n = .Ident (identAt (tokAt st)) ∧ st' = adv st) ∨
-      (peekTok st = some .String ∧ n = .String (stringAt (tokAt st)) ∧ st' = adv st) := by
+      (nextTok st = some .Ident ∧ n = .Ident (identAt (tokAt st)) ∧ st' = adv st) ∨
+      (nextTok st = some .String ∧ n = .String (stringAt (tokAt st)) ∧ st' = adv st) := by
   unfold parseExternName
   split
   · rename_i hk
@@ -50,8 +50,8 @@ theorem parseExternName_eq_ok {st st' : PState} {n : ExternName} :
 
 theorem mem_gExternName {st : PState} {x : ExternName} {r : List STok} :
     (x, r) ∈ gExternName (abs st) ↔
-      (peekTok st = some .Ident ∧ x = .Ident (identOf (tokAt st).text) ∧ r = abs (adv st)) ∨
-      (peekTok st = some .String ∧ x = .String (stringOf (tokAt st).text) ∧ r = abs (adv st)) := by
+      (nextTok st = some .Ident ∧ x = .Ident (identOf (tokAt st).text) ∧ r = abs (adv st)) ∨
+      (nextTok st = some .String ∧ x = .String (stringOf (tokAt st).text) ∧ r = abs (adv st)) := by
   unfold gExternName
   simp [mem_gId, mem_gString, and_assoc]
 
@@ -65,10 +65,10 @@ theorem parseLetStatement_sound (hV : SemverAgree) {pf : Nat} {st st' : PState} 
     t5, st5, ⟨k5, rfl, rfl⟩, h6⟩ := h
   cases h6
   obtain ⟨hs, hl, hm⟩ := parseExpr_sound hV he
-  have l1 := len_of_peekTok k1
-  have l2 := len_of_peekTok k2
-  have l3 := len_of_peekTok k3
-  have l5 := len_of_peekTok k5
+  have l1 := len_of_nextTok k1
+  have l2 := len_of_nextTok k2
+  have l3 := len_of_nextTok k3
+  have l5 := len_of_nextTok k5
   refine ⟨(Suf.adv _).trans (hs.trans ((Suf.adv _).trans ((Suf.adv _).trans (Suf.adv _)))), by omega, ?_⟩
   intro gf hgf
   simp only [gStatement, alt_apply, List.mem_append]
@@ -83,8 +83,8 @@ theorem parseExportStatement_sound (hV : SemverAgree) {pf : Nat} {st st' : PStat
   obtain ⟨t1, st1, ⟨k1, rfl, rfl⟩, e, st2, he, o, st3, ho, t4, st4, ⟨k4, rfl, rfl⟩, h5⟩ := h
   cases h5
   obtain ⟨hs, hl, hm⟩ := parseExpr_sound hV he
-  have l1 := len_of_peekTok k1
-  have l4 := len_of_peekTok k4
+  have l1 := len_of_nextTok k1
+  have l4 := len_of_nextTok k4
   unfold parseExportOptions at ho
   split at ho
   · rename_i ke
@@ -92,7 +92,7 @@ theorem parseExportStatement_sound (hV : SemverAgree) {pf : Nat} {st st' : PStat
     simp only [Except.bind_eq_ok, Prod.exists, parseToken_eq_ok] at ho
     obtain ⟨t, st2', ⟨_, rfl, rfl⟩, ho⟩ := ho
     cases ho
-    have l2 := len_of_peekTok ke
+    have l2 := len_of_nextTok ke
     refine ⟨(Suf.adv _).trans ((Suf.adv _).trans (hs.trans (Suf.adv _))), by omega, ?_⟩
     intro gf hgf
     simp only [gStatement, alt_apply, List.mem_append]
@@ -106,10 +106,10 @@ theorem parseExportStatement_sound (hV : SemverAgree) {pf : Nat} {st st' : PStat
       simp only [Except.bind_eq_ok, Prod.exists, parseToken_eq_ok, parseExternName_eq_ok] at ho
       obtain ⟨t, st2', ⟨_, rfl, rfl⟩, n, st3', hn, ho⟩ := ho
       cases ho
-      have l2 := len_of_peekTok ka
+      have l2 := len_of_nextTok ka
       rcases hn with ⟨kn, rfl, rfl⟩ | ⟨kn, rfl, rfl⟩
       all_goals
-        have l3 := len_of_peekTok kn
+        have l3 := len_of_nextTok kn
         refine ⟨(Suf.adv _).trans ((Suf.adv _).trans ((Suf.adv _).trans (hs.trans (Suf.adv _)))), by omega, ?_⟩
         intro gf hgf
         simp only [gStatement, alt_apply, List.mem_append]
@@ -127,11 +127,11 @@ theorem parseExportStatement_sound (hV : SemverAgree) {pf : Nat} {st st' : PStat
       refine ⟨_, _, hm gf (by omega), .inr (.inr ?_)⟩
       simp [k4, eraseExportOptions]
 
-theorem parseExternName_ok_ident {st : PState} (h : peekTok st = some .Ident) :
+theorem parseExternName_ok_ident {st : PState} (h : nextTok st = some .Ident) :
     parseExternName st = .ok (.Ident (identAt (tokAt st)), adv st) :=
   parseExternName_eq_ok.mpr (.inl ⟨h, rfl, rfl⟩)
 
-theorem parseExternName_ok_string {st : PState} (h : peekTok st = some .String) :
+theorem parseExternName_ok_string {st : PState} (h : nextTok st = some .String) :
     parseExternName st = .ok (.String (stringAt (tokAt st)), adv st) :=
   parseExternName_eq_ok.mpr (.inr ⟨h, rfl, rfl⟩)
 
@@ -144,7 +144,7 @@ theorem gStatement_complete (hV : SemverAgree) (gf : Nat) (st : PState)
     (hTy : ∀ x r, (x, r) ∈ gTypeStatement gf (abs st) → ∀ pf, gf + 2 ≤ pf →
       ∃ x0 st', parseTypeStatement pf st = .ok (x0, st') ∧ eraseTypeStatement x0 = x ∧ abs st' = r ∧
         st'.toks.length < st.toks.length)
-    (hImpFirst : ∀ x r, (x, r) ∈ gImportStatement gf (abs st) → peekTok st = some .ImportKeyword)
+    (hImpFirst : ∀ x r, (x, r) ∈ gImportStatement gf (abs st) → nextTok st = some .ImportKeyword)
     (hTyFirst : ∀ x r, (x, r) ∈ gTypeStatement gf (abs st) → peekIn st typeStatementPeeks = true) :
     ∀ x r, (x, r) ∈ gStatement gf (abs st) → ∀ pf, gf + 2 ≤ pf →
       ∃ x0 st', parseStatement pf st = .ok (x0, st') ∧ eraseStatement x0 = x ∧ abs st' = r ∧
@@ -178,10 +178,10 @@ theorem gStatement_complete (hV : SemverAgree) (gf : Nat) (st : PState)
       (by rw [hr1]; simp [litTok]; decide) pf (by omega)
     obtain ⟨k5, habs5⟩ := abs_adv_of_cons (k := .Semicolon) rfl hr1
     have hlt := (parseExpr_sound hV he0).1.len
-    have l1 := len_of_peekTok k1
-    have l2 := len_of_peekTok k2
-    have l3 := len_of_peekTok k3
-    have l5 := len_of_peekTok k5
+    have l1 := len_of_nextTok k1
+    have l2 := len_of_nextTok k2
+    have l3 := len_of_nextTok k3
+    have l5 := len_of_nextTok k5
     refine ⟨.Let ⟨parseDocs st, identAt (tokAt (adv st)), e⟩, adv st4, ?_, ?_, habs5, by omega⟩
     · simp [parseStatement, k1, parseLetStatement, parseToken_ok k1, parseIdent_ok k2, parseToken_ok k3,
         he0, parseToken_ok k5]
@@ -189,7 +189,7 @@ theorem gStatement_complete (hV : SemverAgree) (gf : Nat) (st : PState)
   · -- export
     simp [and_assoc] at h
     obtain ⟨k1, e', r1, he, hopts⟩ := h
-    have l1 := len_of_peekTok k1
+    have l1 := len_of_nextTok k1
     have hfollow : r1.head? ≠ some (litTok .Dot) ∧ r1.head? ≠ some (litTok .OpenBracket) := by
       rcases hopts with ⟨o, r2, hu, _⟩ | ⟨o, r2, ⟨u, r3, hu, _⟩, _⟩ | ⟨hu, _⟩
       · have := head_of_mem_t hu; rw [this]; simp [litTok]; decide
@@ -203,8 +203,8 @@ theorem gStatement_complete (hV : SemverAgree) (gf : Nat) (st : PState)
       simp at hu
       obtain ⟨ke, rfl⟩ := hu
       obtain ⟨k4, habs4⟩ := abs_adv_of_cons (k := .Semicolon) rfl hr2
-      have l2 := len_of_peekTok ke
-      have l4 := len_of_peekTok k4
+      have l2 := len_of_nextTok ke
+      have l4 := len_of_nextTok k4
       refine ⟨.Export ⟨parseDocs st, e, .Spread (tokAt st2).span⟩, adv (adv st2), ?_, ?_, habs4, by omega⟩
       · simp [parseStatement, k1, parseExportStatement, parseToken_ok k1, he0, parseExportOptions, ke,
           parseToken_ok ke, parseToken_ok k4]
@@ -213,19 +213,19 @@ theorem gStatement_complete (hV : SemverAgree) (gf : Nat) (st : PState)
       have hr2 := head_of_mem_t hsemi
       simp at hu
       obtain ⟨ka, rfl⟩ := hu
-      have l2 := len_of_peekTok ka
+      have l2 := len_of_nextTok ka
       rcases mem_gExternName.mp hn with ⟨kn, rfl, rfl⟩ | ⟨kn, rfl, rfl⟩
       · obtain ⟨k4, habs4⟩ := abs_adv_of_cons (k := .Semicolon) rfl hr2
-        have l3 := len_of_peekTok kn
-        have l4 := len_of_peekTok k4
+        have l3 := len_of_nextTok kn
+        have l4 := len_of_nextTok k4
         refine ⟨.Export ⟨parseDocs st, e, .Rename (.Ident (identAt (tokAt (adv st2))))⟩,
           adv (adv (adv st2)), ?_, ?_, habs4, by omega⟩
         · simp [parseStatement, k1, parseExportStatement, parseToken_ok k1, he0, parseExportOptions, ka,
             parseToken_ok ka, parseExternName_ok_ident kn, parseToken_ok k4]
         · simp [eraseStatement, eraseExportStatement, eraseExportOptions, eraseExternName, erase_identAt]
       · obtain ⟨k4, habs4⟩ := abs_adv_of_cons (k := .Semicolon) rfl hr2
-        have l3 := len_of_peekTok kn
-        have l4 := len_of_peekTok k4
+        have l3 := len_of_nextTok kn
+        have l4 := len_of_nextTok k4
         refine ⟨.Export ⟨parseDocs st, e, .Rename (.String (stringAt (tokAt (adv st2))))⟩,
           adv (adv (adv st2)), ?_, ?_, habs4, by omega⟩
         · simp [parseStatement, k1, parseExportStatement, parseToken_ok k1, he0, parseExportOptions, ka,
@@ -234,7 +234,7 @@ theorem gStatement_complete (hV : SemverAgree) (gf : Nat) (st : PState)
     · -- no options
       have hr2 := head_of_mem_t hsemi
       obtain ⟨k4, habs4⟩ := abs_adv_of_cons (k := .Semicolon) rfl hr2
-      have l4 := len_of_peekTok k4
+      have l4 := len_of_nextTok k4
       refine ⟨.Export ⟨parseDocs st, e, .None⟩, adv st2, ?_, ?_, habs4, by omega⟩
       · simp [parseStatement, k1, parseExportStatement, parseToken_ok k1, he0, parseExportOptions, k4,
           parseToken_ok k4]
